@@ -12,6 +12,7 @@ import (
 func init() {
 	vRegister("VH_C05_content_decoders", VH_C05_content_decoders)
 	vRegister("VH_C05_unsupported", VH_C05_unsupported)
+	vRegister("VH_C03_content_decode", VH_C03_content_decode)
 }
 
 // The protocol-level content decoders invert the corresponding encoders.
@@ -86,6 +87,26 @@ func VH_C05_unsupported() {
 		got, err := DecodeCMPPCContent(ctx, src, c)
 		vAssert("C05.unsupported.cmpp-refused", vAnd(err != nil, errors.Is(err, datacoding.ErrUnsupportedDataCoding)))
 		vAssert("C05.unsupported.cmpp-content-untouched", got == src)
+	}
+	vReach("end")
+}
+
+// C03: the protocol-level content decoders on arbitrary source octets and arbitrary coding
+// numbers (GBK excluded: x/text's GB18030 tables are not encoded): value or error, no panic.
+func VH_C03_content_decode() {
+	n := vParam("n")
+	src := vString("src", n)
+	ctx := context.Background()
+	vBudget(3000000, true)
+	if vParam("smpp") == 1 {
+		c := vInt("coding")
+		_, err := DecodeSMPPCContent(ctx, src, c)
+		vObserveErr("err", err)
+	} else {
+		c := vU8("coding")
+		vAssume(c != 15)
+		_, err := DecodeCMPPCContent(ctx, src, c)
+		vObserveErr("err", err)
 	}
 	vReach("end")
 }
